@@ -27,7 +27,7 @@ def _escapes(f) -> bool:
     return any(d for d in f.decorators)
 
 
-def module_state(ctx, rule: str, scope=None) -> None:
+def module_state(ctx, rule: str, scope=None, ignore=()) -> None:
     """scope: the functions looked at (qualified names); default: everything reachable from the processing entry
     points."""
     fx = effects(ctx)
@@ -56,7 +56,7 @@ def module_state(ctx, rule: str, scope=None) -> None:
         # (b) writes to module / class / function objects
         for (key, deep), (e, via) in fx.mutations(q).items():
             if key[0] == 'global':
-                if q in ALLOWED_GLOBAL_WRITERS.get(key[1], ()):
+                if q in ALLOWED_GLOBAL_WRITERS.get(key[1], ()) or key[1] in ignore:
                     continue
                 ctx.violation(rule, q, e.node, e.loc(),
                               f'writes module-level object {key[1]}' +
